@@ -37,7 +37,13 @@ def is_date_spec(spec: str) -> bool:
 
 def is_short_date_spec(short_date: str) -> bool:
     """Returns True iff {short_date} is a valid short date."""
-    return len(short_date) == 6 and all(ch.isdigit() for ch in short_date)
+    if len(short_date) != 6 or not all(ch.isdigit() for ch in short_date):
+        return False
+    try:
+        from_short_date_spec(short_date)
+    except ValueError:
+        return False
+    return True
 
 
 def is_long_date_spec(long_date: str) -> bool:
